@@ -1285,7 +1285,8 @@ fn indexed_access_key(obj_type: &TsType, index_type: &TsType) -> (Atom, SyntaxCo
 
 fn extract_prop_name(expr: Expr, computed: bool) -> PropName {
     match expr {
-        Expr::Ident(ident) => PropName::Ident(ident.into()),
+        // `[ident]` is the *value* of `ident`, not a prop called "ident"
+        Expr::Ident(ident) if !computed => PropName::Ident(ident.into()),
         Expr::Lit(Lit::Str(str)) => PropName::Str(str),
         Expr::Lit(Lit::Num(num)) => PropName::Num(num),
         Expr::Lit(Lit::BigInt(bigint)) => PropName::BigInt(bigint),
